@@ -42,6 +42,7 @@ class Op:
     header: Part | None = None
     fault: Part | None = None
     second_fault: bool = False  # another fault of the operation with the same detail element
+    out_header: bool = False  # the header message is also declared for the output (the response may carry it, a fault does not)
     body_ns: str | None = None  # rpc: soap:body namespace
 
 
@@ -167,6 +168,9 @@ class WsdlGen:
                 w.elements.append(h)
                 op.header = Part("header", element=h.name)
                 w.features.add("header")
+                if op.output is not None and rng.random() < 0.4:
+                    op.out_header = True
+                    w.features.add("output-header")
             if rng.random() < 0.3 and op.output is not None:
                 f = self.element("Err")
                 w.elements.append(f)
@@ -246,7 +250,7 @@ def render(w: Wsdl) -> dict:
         hdr = f'\n        <soap:header message="tns:{op.name}Hdr" part="header" use="literal"/>' if op.header else ""
         out.append(f'    <operation name="{op.name}">\n      <soap:operation{action}{ostyle}/>\n      <input>\n        <soap:body use="literal"{body_ns}/>{hdr}\n      </input>')
         if op.output is not None:
-            out.append(f'      <output>\n        <soap:body use="literal"{body_ns}/>\n      </output>')
+            out.append(f'      <output>\n        <soap:body use="literal"{body_ns}/>{hdr if op.out_header else ""}\n      </output>')
         if op.fault:
             out.append(f'      <fault name="{op.name}Fault">\n        <soap:fault name="{op.name}Fault" use="literal"/>\n      </fault>')
             if op.second_fault:
